@@ -451,12 +451,19 @@ impl<'tcx> Cx<'tcx> {
                         mir::AssertKind::ResumedAfterPanic(_) => "resumed_after_panic".to_string(),
                         _ => "other".to_string(),
                     };
+                    let extra = match &**msg {
+                        mir::AssertKind::BoundsCheck { len, index } => {
+                            format!(",\"len\":{},\"index\":{}", self.op_js(body, len), self.op_js(body, index))
+                        }
+                        _ => String::new(),
+                    };
                     format!(
-                        "{{\"t\":\"assert\",\"cond\":{},\"expected\":{},\"msg\":{},\"to\":{},{}}}",
+                        "{{\"t\":\"assert\",\"cond\":{},\"expected\":{},\"msg\":{},\"to\":{}{},{}}}",
                         self.op_js(body, cond),
                         expected,
                         js(&mk),
                         target.as_usize(),
+                        extra,
                         sp
                     )
                 }
